@@ -4,33 +4,35 @@ A unit is tagged with a property when the property's statement talks about the s
 usage: retag.py [--dry]"""
 import re, glob, sys
 STAGE_PROPS = {
- 'target':  'C01 C02 C03 C13 C17 C18',
- 'gen':     'C01 C02 C07 C13 C17 C19',
- 'iter':    'C01 C04',
- 'cache':   'C01 C05 C07 C11 C13',
- 'pktgen':  'C01 C05 C07 C11 C13 C16 C19',
- 'fill':    'C01 C02 C05 C11 C17 C19',
- 'send':    'C01 C05 C07 C11 C13 C15 C16 C19',
- 'recv':    'C03 C06 C16 C20',
- 'errs':    'C07 C08 C13 C16 C20',
- 'proc':    'C03 C06 C14 C16',
+ 'target':  'C01 C02 C03 C08 C13 C17 C18',
+ 'gen':     'C01 C02 C04 C05 C07 C08 C12 C13 C17 C19',
+ 'iter':    'C01 C02 C04 C08 C19',
+ 'cache':   'C01 C05 C07 C11 C12 C13',
+ 'pktgen':  'C01 C05 C07 C11 C12 C13 C16 C19',
+ 'fill':    'C01 C02 C05 C07 C11 C17 C19',
+ 'send':    'C01 C05 C07 C11 C12 C13 C15 C16 C19',
+ 'recv':    'C03 C06 C12 C16 C20',
+ 'errs':    'C03 C07 C08 C12 C13 C16 C20',
+ 'proc':    'C03 C06 C14 C16 C20',
  'filter':  'C03',
- 'result':  'C03 C06 C08 C14 C16 C20',
- 'log':     'C08 C14 C16',
- 'pktcmd':  'C01 C02 C03 C05 C11 C13 C14 C15 C16 C17',
- 'appcmd':  'C01 C02 C08 C13 C14 C15 C16',
- 'engine':  'C01 C03 C07 C08 C13 C14 C15 C16',
- 'app':     'C01 C02 C08 C09 C10 C13 C15',
- 'socks':   'C08 C09',
- 'docker':  'C08 C10',
- 'elastic': 'C08 C10',
+ 'result':  'C03 C06 C08 C09 C10 C11 C12 C14 C16 C20',
+ 'log':     'C03 C08 C09 C10 C11 C12 C13 C14 C16',
+ 'pktcmd':  'C01 C02 C03 C05 C07 C11 C12 C13 C14 C15 C16 C17',
+ 'appcmd':  'C01 C02 C08 C12 C13 C14 C15 C16',
+ 'engine':  'C01 C03 C07 C08 C09 C10 C12 C13 C14 C15 C16 C20',
+ 'app':     'C01 C02 C08 C09 C10 C12 C13 C15',
+ 'socks':   'C01 C02 C08 C09 C12 C14',
+ 'docker':  'C01 C02 C08 C10 C14',
+ 'elastic': 'C01 C02 C08 C10 C14',
  'iface':   'C17 C05',
+ 'optplumb': 'C05 C18',
 }
 RULES = [  # (package regex, function regex, stage)
  (r'pkg/ip', r'ParseIPNet', 'target'),
  (r'pkg/ip', r'Get', 'iface'),
  (r'command', r'parseDstSubnet|parseScanRange|parsePortRange|parsePortsFile|parseExcludeFile|parseRawOptions|newStdinOpener|newIPPortGenerator', 'target'),
  (r'command', r'getScanRange|getInterface|getLocalSubnetInterface', 'iface'),
+ (r'command', r'getUDPOptions|getICMPOptions|parseIPFlags|parseTCPFlags|parsePacketPayload|^init$', 'optplumb'),
  (r'pkg/scan$', r'rangeIterator|newRangeIterator', 'iter'),
  (r'pkg/scan$', r'ipGenerator|portGenerator|ipPortGenerator|ipRequestGenerator|fileIPPortGenerator|fileIPGenerator|filterIPRequestGenerator|liveRequestGenerator|validatePorts|isValidPort|NewIPPortGenerator|NewIPRequestGenerator|NewFileIP|NewLiveRequestGenerator|NewFilterIPRequestGenerator', 'gen'),
  (r'pkg/scan/arp', r'cacheReqGenerator|Cache\)|NewCache|FillCache', 'cache'),
